@@ -422,6 +422,9 @@ pub trait MapValidBasic<T: IsNone>: TrustedLen<Item = T> + Sized {
             }
             bins.titer().map(IsNone::unwrap).collect_trusted_vec1()
         };
+        // with add_bounds the outermost bins are open ended: the type's min / max only
+        // stand in for -inf / +inf and must not exclude a value equal to them
+        let last_bin = bins.len().saturating_sub(2);
         if right {
             Ok(Box::new(self.map(move |value| {
                 if value.is_none() {
@@ -429,12 +432,15 @@ pub trait MapValidBasic<T: IsNone>: TrustedLen<Item = T> + Sized {
                 } else {
                     let value = value.unwrap();
                     let mut out = None;
-                    for (bound, label) in bins
+                    for (i, (bound, label)) in bins
                         .titer()
                         .tuple_windows::<(T::Inner, T::Inner)>()
                         .zip(labels.titer())
+                        .enumerate()
                     {
-                        if (bound.0 < value) && (value <= bound.1) {
+                        let above_lower = (bound.0 < value) || (add_bounds && i == 0);
+                        let below_upper = (value <= bound.1) || (add_bounds && i == last_bin);
+                        if above_lower && below_upper {
                             out = Some(label.clone());
                             break;
                         }
@@ -449,12 +455,15 @@ pub trait MapValidBasic<T: IsNone>: TrustedLen<Item = T> + Sized {
                 } else {
                     let value = value.unwrap();
                     let mut out = None;
-                    for (bound, label) in bins
+                    for (i, (bound, label)) in bins
                         .titer()
                         .tuple_windows::<(T::Inner, T::Inner)>()
                         .zip(labels.titer())
+                        .enumerate()
                     {
-                        if (bound.0 <= value) && (value < bound.1) {
+                        let above_lower = (bound.0 <= value) || (add_bounds && i == 0);
+                        let below_upper = (value < bound.1) || (add_bounds && i == last_bin);
+                        if above_lower && below_upper {
                             out = Some(label.clone());
                             break;
                         }
